@@ -185,6 +185,10 @@ impl Watcher {
             return Err(AddAppointmentFailure::SubscriptionExpired(expiry));
         }
 
+        // The locator cache is locked from here on, so checking for a tracker, filling the slots and storing the appointment
+        // (or handing it to the Responder) is atomic with respect to other requests for the same appointment.
+        let locator_cache = self.locator_cache.lock().unwrap();
+
         let extended_appointment = ExtendedAppointment::new(
             appointment,
             user_id,
@@ -210,12 +214,7 @@ impl Watcher {
         // This will hang, the request will timeout but be accepted. However, the user will not be handed the receipt.
         // This could be fixed adding a thread to take care of storing while the main thread returns the receipt.
         // Not fixing this atm since working with threads that call self.method is surprisingly non-trivial.
-        match self
-            .locator_cache
-            .lock()
-            .unwrap()
-            .get(&extended_appointment.locator())
-        {
+        match locator_cache.get(&extended_appointment.locator()) {
             // Appointments that were triggered in blocks held in the cache
             Some(dispute_tx) => {
                 self.store_triggered_appointment(uuid, &extended_appointment, user_id, dispute_tx);
